@@ -66,20 +66,27 @@ theorem active_enabled {cfg : Cfg} (wf : WF cfg) {s : State} (h : Inv cfg s) {i 
       by_cases hc : cfg.size k > cfg.capacity
       · have := this.1 hc; rw [hov] at this; simp at this
       · have := this.2 (by omega); omega
+    have hcbF : s.cbLock = false := by
+      have := h.l.cb; rw [hcb] at this
+      cases hc : s.cbLock <;> simp [hc] at this ⊢
+    -- somebody about to take the (free) callback lock can run
+    by_cases hE2 : ∃ k : Nat, s.tasks[k]? = some .cbAcq
+    · obtain ⟨k, hk⟩ := hE2
+      exact ⟨k, by unfold stepTask; rw [hk]; simp [hcbF]⟩
+    have hnc : ∀ k : Nat, s.tasks[k]? ≠ some .cbAcq := fun k hk => hE2 ⟨k, hk⟩
     have hil : i < cfg.n := by rw [← h.s.tasks_len]; exact getElem?_lt hi
     refine ⟨i, ?_⟩
     have hfp := hnf i p hi
     unfold stepTask
     rw [hi]
     cases p <;> simp [free] at hfp <;> simp at hp
-    · -- cbAcq: the callback lock is free because nobody is inside the callback
-      have := h.l.cb; rw [hcb] at this
-      cases hc : s.cbLock <;> simp [hc] at this ⊢
+    · exact absurd hi (hnc i)
     · -- tAcq: the tensor lock is free because nobody is inside a tensor section
       have hT : wsum (fT cfg (cfg.obj i)) 0 s.tasks = 0 := wsum_eq_zero _ _ _ (by
-        intro k q hk; have h1 := hnf k q hk; have h2 := hnw k
+        intro k q hk; have h1 := hnf k q hk; have h2 := hnw k; have h3 := hnc k
         cases q <;> simp [free] at h1 <;> simp [fT, inT]
-        exact absurd hk h2)
+        · exact absurd hk h3
+        · exact absurd hk h2)
       have := h.l.tl (cfg.obj i) (wf.obj_lt i hil); rw [hT] at this
       simp only [List.getD_eq_getElem?_getD] at this ⊢
       cases hc : s.tLocks[cfg.obj i]?.getD false <;> simp [hc] at this ⊢
@@ -174,9 +181,9 @@ theorem progress {cfg : Cfg} (wf : WF cfg) {s : State} (h : Inv cfg s) (hnt : te
     to come (each `notify_all` can put at most `n` waiters back one step) -/
 def pcW (n : Nat) : Pc → Nat
   | .notStarted => 10 + (n + 1)
-  | .cbAcq => 9 + (n + 1)
-  | .cbBody => 8 + (n + 1)
-  | .tAcq => 7 + (n + 1)
+  | .tAcq => 9 + (n + 1)
+  | .cbAcq => 8 + (n + 1)
+  | .cbBody => 7 + (n + 1)
   | .bAcq => 6 + (n + 1)
   | .woken => 5 + (n + 1)
   | .waiting => 4 + (n + 1)
@@ -216,7 +223,7 @@ theorem variant_finish {cfg : Cfg} {s : State} (hs : SInv cfg s) {i : Nat} {p : 
     have hnext := hs.next_notStarted hi hpd hn
     have h1 := wsum_set0 (fun _ p => pcW cfg.n p) s.tasks i p (.done true) hi
     have h2 := wsum_set0 (fun _ p => pcW cfg.n p) (s.tasks.set i (.done true)) (i + 1)
-      .notStarted .cbAcq (by simp only [List.getElem?_set]; simp; exact hnext)
+      .notStarted .tAcq (by simp only [List.getElem?_set]; simp; exact hnext)
     simp only [pcW] at h1 h2 ⊢
     omega
   · rw [e]
@@ -250,22 +257,22 @@ theorem variant_decreases {cfg : Cfg} (wf : WF cfg) {s s' : State} {l : Label} (
   | join c e hm he => simp [variant, mainW, hm]
   | take j q hq hidle =>
       have hj : j ∈ s.queue := by simp [hq]
-      have := hset (x := .cbAcq) (h.s.start_notStarted wf hj) (by simp [pcW])
+      have := hset (x := .tAcq) (h.s.start_notStarted wf hj) (by simp [pcW])
       simp only [variant, mainW]
       omega
   | exit hq hsd hidle => simp only [variant, mainW]; omega
   | cbAcq i hi hl =>
       have := hset (x := .cbBody) hi (by simp [pcW]); simp only [variant, mainW]; omega
   | cbFail i hi hf =>
-      have := variant_finish (s := { s with log := s.log ++ [i], cbLock := false })
-        (SInv_congr h.s rfl rfl rfl rfl rfl) false hi rfl
+      have := variant_finish (s := { s with log := s.log ++ [i], cbLock := false, tLocks := s.tLocks.set (cfg.obj i) false })
+        (SInv_congr h.s rfl rfl (by simp) rfl rfl) false hi rfl
       have h3 := pcW_act (n := cfg.n) (p := .cbBody) rfl
       simp only [variant, mainW, finishTask_main, finishTask_collected] at this ⊢
       omega
   | cbOk i hi hf =>
-      have := hset (x := .tAcq) hi (by simp [pcW]); simp only [variant, mainW]; omega
-  | tAcq i hi hl =>
       have := hset (x := .bAcq) hi (by simp [pcW]); simp only [variant, mainW]; omega
+  | tAcq i hi hl =>
+      have := hset (x := .cbAcq) hi (by simp [pcW]); simp only [variant, mainW]; omega
   | bTry i p hi hp' =>
       rcases budgetTry_cases cfg s i with ⟨_, _, e⟩ | ⟨_, _, e⟩ | ⟨_, _, e⟩ | ⟨_, _, e⟩ <;> rw [e]
       · have := hset (x := .waiting) hi (by rcases hp' with rfl | rfl <;> simp [pcW])
